@@ -174,4 +174,31 @@ theorem C05_http_after_done (s : St) (m : Nat) (hd : s.done = true) (hs : s.cSen
     step s (.cSendBegin m) = some (s, [.ret .cs .eof]) ∧ step s .cRecvBegin = some (s, [.ret .cr (finalOf s)]) := by
   simp [step, hs, hr, hd]
 
+/-- **A recorded error is final**: once the call has recorded an error (a transport failure, the
+    context's status, or the Internal error of a protocol violation), no later step — in particular
+    not the reader goroutine reaching the trailer frame afterwards — replaces or clears it.
+    (The code before the repair assigned the trailer's decode result to `cs.rErr` unconditionally:
+    RecvMsg returned Internal and the next RecvMsg io.EOF.) -/
+theorem C05_http_recorded_error_is_final (s : St) (a : Act) (s' : St) (evs : List Ev) (e : Res)
+    (hs : step s a = some (s', evs)) (hr : s.rErr = some e) : s'.rErr = some e := by
+  cases a <;> simp only [step, complete] at hs <;> (repeat' split at hs) <;>
+    (try (simp only [Option.some.injEq, Prod.mk.injEq, reduceCtorEq] at hs)) <;>
+    (try (obtain ⟨rfl, rfl⟩ := hs)) <;> simp_all
+
+/-- **…and so is the final outcome** RecvMsg reports after completion: with the reader goroutine
+    gone (or an error recorded) and no protocol-violation verdict pending, every step leaves
+    `finalOf` unchanged. -/
+theorem C05_http_final_status_stable (s : St) (a : Act) (s' : St) (evs : List Ev)
+    (hs : step s a = some (s', evs)) (hpc : s.pc = 3 ∨ s.rErr.isSome) (hv : s.cRecv ≠ some .violation) :
+    finalOf s' = finalOf s := by
+  cases hr : s.rErr with
+  | some e =>
+    have := C05_http_recorded_error_is_final s a s' evs e hs hr
+    simp [finalOf, hr, this]
+  | none =>
+    have hpc3 : s.pc = 3 := by simpa [hr] using hpc
+    cases a <;> simp only [step, complete] at hs <;> (repeat' split at hs) <;>
+      (try (simp only [Option.some.injEq, Prod.mk.injEq, reduceCtorEq] at hs)) <;>
+      (try (obtain ⟨rfl, rfl⟩ := hs)) <;> simp_all [finalOf]
+
 end HttpClientStream
